@@ -182,71 +182,39 @@ func rewriteFile(name string, src []byte, repo string, rep *Report) ([]byte, boo
 	off := func(p token.Pos) int { return fset.Position(p).Offset }
 	var edits []edit
 	label := 0
-	ast.Inspect(f, func(n ast.Node) bool {
-		sel, ok := n.(*ast.SelectStmt)
-		if !ok {
-			return true
+	// render returns src[a:b] with every edit collected so far that lies inside it applied
+	// (nested selects that were already rewritten, inserted scheduling points).
+	render := func(a, b int) string {
+		var in []edit
+		for _, e := range edits {
+			if e.start >= a && e.end <= b {
+				in = append(in, e)
+			}
 		}
-		var recv []*ast.CommClause
-		var def *ast.CommClause
-		allRecv := true
-		for _, c := range sel.Body.List {
-			cc := c.(*ast.CommClause)
-			if cc.Comm == nil {
-				def = cc
+		sort.SliceStable(in, func(i, j int) bool { return in[i].start < in[j].start })
+		var sb strings.Builder
+		pos := a
+		for _, e := range in {
+			if e.start < pos {
 				continue
 			}
-			if !isRecv(cc.Comm) {
-				allRecv = false
-			}
-			recv = append(recv, cc)
+			sb.Write(src[pos:e.start])
+			sb.WriteString(e.text)
+			pos = e.end
 		}
-		if def == nil || len(recv) < 2 {
-			return true
-		}
-		where := fmt.Sprintf("%s:%d", rel, fset.Position(sel.Pos()).Line)
-		if !allRecv {
-			rep.Refused = append(rep.Refused, where+": has a send clause")
-			return true
-		}
-		for _, c := range sel.Body.List {
-			if hasBareBreak(c.(*ast.CommClause).Body) {
-				rep.Refused = append(rep.Refused, where+": clause body has an unlabeled break")
-				return true
+		sb.Write(src[pos:b])
+		return sb.String()
+	}
+	dropInside := func(a, b int) {
+		keep := edits[:0]
+		for _, e := range edits {
+			if !(e.start >= a && e.end <= b) {
+				keep = append(keep, e)
 			}
 		}
-		label++
-		lab := fmt.Sprintf("detselL%d", label)
-		clauseEnd := func(i int) int {
-			if i+1 < len(sel.Body.List) {
-				return off(sel.Body.List[i+1].Pos())
-			}
-			return off(sel.Body.Rbrace)
-		}
-		idxOf := func(cc *ast.CommClause) int {
-			for i, c := range sel.Body.List {
-				if c == cc {
-					return i
-				}
-			}
-			return -1
-		}
-		var b strings.Builder
-		fmt.Fprintf(&b, "%s:\n\tswitch {\n\tdefault:\n\t\tfor _, detselI := range verifhook.Perm(%d) {\n\t\t\tswitch detselI {\n", lab, len(recv))
-		for k, cc := range recv {
-			comm := string(src[off(cc.Comm.Pos()):off(cc.Comm.End())])
-			body := string(src[off(cc.Colon)+1 : clauseEnd(idxOf(cc))])
-			fmt.Fprintf(&b, "\t\t\tcase %d:\n\t\t\t\tselect {\n\t\t\t\tcase %s:\n%s\n\t\t\t\t\tbreak %s\n\t\t\t\tdefault:\n\t\t\t\t}\n", k, comm, body, lab)
-		}
-		b.WriteString("\t\t\t}\n\t\t}\n")
-		b.WriteString(string(src[off(def.Colon)+1 : clauseEnd(idxOf(def))]))
-		b.WriteString("\n\t}")
-		edits = append(edits, edit{off(sel.Pos()), off(sel.End()), b.String()})
-		rep.Rewritten = append(rep.Rewritten, where)
-		return false // do not descend: nested selects inside a rewritten one are left alone
-	})
+		edits = keep
+	}
 	if yieldScope(name, repo) {
-		selEdits := append([]edit(nil), edits...)
 		for _, d := range f.Decls {
 			fd, ok := d.(*ast.FuncDecl)
 			if !ok || fd.Body == nil {
@@ -255,11 +223,6 @@ func rewriteFile(name string, src []byte, repo string, rep *Report) ([]byte, boo
 			locked := false
 			yieldBlock(fd.Body.List, &locked, func(st ast.Stmt) {
 				o := off(st.Pos())
-				for _, se := range selEdits {
-					if o >= se.start && o < se.end {
-						return
-					}
-				}
 				where := fmt.Sprintf("%s:%d", rel, fset.Position(st.Pos()).Line)
 				edits = append(edits, edit{o, o, fmt.Sprintf("verifhook.Yield(%q); ", where)})
 				rep.Yields = append(rep.Yields, where)
@@ -285,6 +248,122 @@ func rewriteFile(name string, src []byte, repo string, rep *Report) ([]byte, boo
 			}
 			return true
 		})
+	}
+	var sels []*ast.SelectStmt
+	ast.Inspect(f, func(n ast.Node) bool {
+		if sel, ok := n.(*ast.SelectStmt); ok {
+			sels = append(sels, sel)
+		}
+		return true
+	})
+	// innermost first: a rewritten select is baked into the text of the one around it
+	sort.SliceStable(sels, func(i, j int) bool { return sels[i].End()-sels[i].Pos() < sels[j].End()-sels[j].Pos() })
+	handle := func(sel *ast.SelectStmt) {
+		var recv []*ast.CommClause
+		var def *ast.CommClause
+		allRecv := true
+		for _, c := range sel.Body.List {
+			cc := c.(*ast.CommClause)
+			if cc.Comm == nil {
+				def = cc
+				continue
+			}
+			if !isRecv(cc.Comm) {
+				allRecv = false
+			}
+			recv = append(recv, cc)
+		}
+		where := fmt.Sprintf("%s:%d", rel, fset.Position(sel.Pos()).Line)
+		if def == nil && len(recv) >= 2 && yieldScope(name, repo) {
+			// Blocking select of the engine with several clauses: when more than one is ready the
+			// Go runtime picks at random. Poll the clauses once in simulator order first, then
+			// fall back to the original statement. Only when re-evaluating the clause expressions
+			// is harmless (identifiers, selector chains, x.Done()).
+			for _, cc := range recv {
+				if !simpleComm(cc.Comm) {
+					rep.Refused = append(rep.Refused, where+": blocking select with a clause expression that cannot be re-evaluated")
+					return
+				}
+				if hasBareBreak(cc.Body) || hasLabel(cc.Body) || hasBareContinue(cc.Body) {
+					rep.Refused = append(rep.Refused, where+": blocking select whose clause body has an unlabeled break / continue or a label")
+					return
+				}
+			}
+			label++
+			lab := fmt.Sprintf("detselL%d", label)
+			clauseEndB := func(i int) int {
+				if i+1 < len(sel.Body.List) {
+					return off(sel.Body.List[i+1].Pos())
+				}
+				return off(sel.Body.Rbrace)
+			}
+			var b strings.Builder
+			fmt.Fprintf(&b, "verifhook.Yield(%q)\n%s:\n\tswitch {\n\tdefault:\n\t\tfor _, detselI := range verifhook.Perm(%d) {\n\t\t\tswitch detselI {\n", where, lab, len(recv))
+			for k, c := range sel.Body.List {
+				cc := c.(*ast.CommClause)
+				comm := string(src[off(cc.Comm.Pos()):off(cc.Comm.End())])
+				body := render(off(cc.Colon)+1, clauseEndB(k))
+				fmt.Fprintf(&b, "\t\t\tcase %d:\n\t\t\t\tselect {\n\t\t\t\tcase %s:\n%s\n\t\t\t\t\tbreak %s\n\t\t\t\tdefault:\n\t\t\t\t}\n", k, comm, body, lab)
+			}
+			b.WriteString("\t\t\t}\n\t\t}\n\t\t")
+			// second copy of the bodies: labels of baked-in inner rewrites must stay unique
+			b.WriteString(strings.ReplaceAll(render(off(sel.Pos()), off(sel.End())), "detselL", lab+"x"))
+			b.WriteString("\n\t}")
+			if allReturn(sel) {
+				// the original select was a terminating statement; the labelled switch is not
+				b.WriteString("\n\tpanic(\"detsel: unreachable\")")
+			}
+			dropInside(off(sel.Pos()), off(sel.End()))
+			edits = append(edits, edit{off(sel.Pos()), off(sel.End()), b.String()})
+			rep.Rewritten = append(rep.Rewritten, where+" (blocking)")
+			rep.Yields = append(rep.Yields, where)
+			return
+		}
+		if def == nil || len(recv) < 2 {
+			return
+		}
+		if !allRecv {
+			rep.Refused = append(rep.Refused, where+": has a send clause")
+			return
+		}
+		for _, c := range sel.Body.List {
+			if hasBareBreak(c.(*ast.CommClause).Body) || hasBareContinue(c.(*ast.CommClause).Body) {
+				rep.Refused = append(rep.Refused, where+": clause body has an unlabeled break or continue")
+				return
+			}
+		}
+		label++
+		lab := fmt.Sprintf("detselL%d", label)
+		clauseEnd := func(i int) int {
+			if i+1 < len(sel.Body.List) {
+				return off(sel.Body.List[i+1].Pos())
+			}
+			return off(sel.Body.Rbrace)
+		}
+		idxOf := func(cc *ast.CommClause) int {
+			for i, c := range sel.Body.List {
+				if c == cc {
+					return i
+				}
+			}
+			return -1
+		}
+		var b strings.Builder
+		fmt.Fprintf(&b, "%s:\n\tswitch {\n\tdefault:\n\t\tfor _, detselI := range verifhook.Perm(%d) {\n\t\t\tswitch detselI {\n", lab, len(recv))
+		for k, cc := range recv {
+			comm := string(src[off(cc.Comm.Pos()):off(cc.Comm.End())])
+			body := render(off(cc.Colon)+1, clauseEnd(idxOf(cc)))
+			fmt.Fprintf(&b, "\t\t\tcase %d:\n\t\t\t\tselect {\n\t\t\t\tcase %s:\n%s\n\t\t\t\t\tbreak %s\n\t\t\t\tdefault:\n\t\t\t\t}\n", k, comm, body, lab)
+		}
+		b.WriteString("\t\t\t}\n\t\t}\n")
+		b.WriteString(render(off(def.Colon)+1, clauseEnd(idxOf(def))))
+		b.WriteString("\n\t}")
+		dropInside(off(sel.Pos()), off(sel.End()))
+		edits = append(edits, edit{off(sel.Pos()), off(sel.End()), b.String()})
+		rep.Rewritten = append(rep.Rewritten, where)
+	}
+	for _, sel := range sels {
+		handle(sel)
 	}
 	if len(edits) == 0 {
 		return nil, false, nil
@@ -399,7 +478,9 @@ func yieldBlock(list []ast.Stmt, locked *bool, emit func(ast.Stmt)) {
 			continue
 		}
 		if _, isDefer := st.(*ast.DeferStmt); !isDefer && !*locked {
-			if found, lock := sharedCall(st); found {
+			if _, isSend := st.(*ast.SendStmt); isSend {
+				emit(st)
+			} else if found, lock := sharedCall(st); found {
 				emit(st)
 				if lock {
 					*locked = true
@@ -443,4 +524,81 @@ func lockCall(x ast.Expr) (string, bool) {
 		return se.Sel.Name, true
 	}
 	return "", false
+}
+
+// simpleComm: the communication clause only mentions identifiers, selector chains and
+// x.Done() calls (and, for a send, such a value), so evaluating it again is harmless.
+func simpleComm(st ast.Stmt) bool {
+	ok := true
+	ast.Inspect(st, func(n ast.Node) bool {
+		switch v := n.(type) {
+		case *ast.CallExpr:
+			se, isSel := v.Fun.(*ast.SelectorExpr)
+			if !isSel || se.Sel.Name != "Done" || len(v.Args) != 0 {
+				ok = false
+			}
+		case *ast.FuncLit, *ast.CompositeLit, *ast.IndexExpr, *ast.SliceExpr, *ast.TypeAssertExpr:
+			ok = false
+		}
+		return ok
+	})
+	return ok
+}
+
+func hasLabel(body []ast.Stmt) bool {
+	found := false
+	for _, s := range body {
+		ast.Inspect(s, func(n ast.Node) bool {
+			if _, ok := n.(*ast.LabeledStmt); ok {
+				found = true
+			}
+			return !found
+		})
+	}
+	return found
+}
+
+// allReturn: every clause of the select ends in a return or a panic, i.e. the select
+// is a terminating statement.
+func allReturn(sel *ast.SelectStmt) bool {
+	for _, c := range sel.Body.List {
+		body := c.(*ast.CommClause).Body
+		if len(body) == 0 {
+			return false
+		}
+		switch v := body[len(body)-1].(type) {
+		case *ast.ReturnStmt:
+		case *ast.ExprStmt:
+			call, ok := v.X.(*ast.CallExpr)
+			if !ok {
+				return false
+			}
+			if id, ok := call.Fun.(*ast.Ident); !ok || id.Name != "panic" {
+				return false
+			}
+		default:
+			return false
+		}
+	}
+	return true
+}
+
+// hasBareContinue reports an unlabeled continue that targets a loop around the select
+// (the rewrite wraps the clauses in a loop of its own).
+func hasBareContinue(body []ast.Stmt) bool {
+	found := false
+	for _, s := range body {
+		ast.Inspect(s, func(n ast.Node) bool {
+			switch v := n.(type) {
+			case *ast.ForStmt, *ast.RangeStmt, *ast.FuncLit:
+				return false
+			case *ast.BranchStmt:
+				if v.Tok == token.CONTINUE && v.Label == nil {
+					found = true
+				}
+			}
+			return true
+		})
+	}
+	return found
 }
